@@ -318,13 +318,13 @@ Theorem mq_next_spec q l : MQInv q l ->
   match first_waiting l with
   | None => mq_next q = Ok (None, q)
   | Some (o, e) => exists q', mq_next q = Ok (Some (o, e), q') /\ MQInv q' (upd_at o QSENT l) /\ In (o, e) l /\
-                              nid q' = nid q /\ cnt q' = cnt q
+                              nid q' = nid q /\ cnt q' = cnt q /\ qsize q' = qsize q
   end.
 Proof.
   intros H. unfold mq_next. rewrite (mq_entries_spec q l H).
   destruct (first_waiting l) as [[o e]|] eqn:F; [|reflexivity].
   eexists. split; [reflexivity|]. split; [exact (inv_upd_at q l o QSENT H)|].
-  split; [apply (first_waiting_in l o e F) | split; reflexivity].
+  split; [apply (first_waiting_in l o e F) | splits; reflexivity].
 Qed.
 
 Theorem mq_reads_ok q l : MQInv q l ->
@@ -347,10 +347,10 @@ Proof.
 Qed.
 
 Theorem mq_reset_waiting_spec q l : MQInv q l ->
-  exists q', mq_reset_waiting q = Ok q' /\ MQInv q' (reset_lay l l) /\ nid q' = nid q /\ cnt q' = cnt q.
+  exists q', mq_reset_waiting q = Ok q' /\ MQInv q' (reset_lay l l) /\ nid q' = nid q /\ cnt q' = cnt q /\ qsize q' = qsize q.
 Proof.
   intros H. unfold mq_reset_waiting. rewrite (mq_entries_spec q l H). eexists. split; [reflexivity|].
-  split; [exact (reset_fold_inv l q l H) | split; reflexivity].
+  split; [exact (reset_fold_inv l q l H) | splits; reflexivity].
 Qed.
 
 Lemma inv_release q l : MQInv q l -> 0 <= nid q -> MQInv (mq_release q) [].
@@ -796,4 +796,171 @@ Proof.
                 | (rewrite Hesz; lia) ].
            ++ right; left. rewrite H1, skipn_all, H2. cbn [app].
               splits; first [ assumption | reflexivity | lia | (rewrite Hesz; lia) ].
+Qed.
+
+(* ------------------------------------------------------------------ pairs handed out stay valid *)
+Lemma inv_cnt q l : MQInv q l -> cnt q = Z.of_nat (length l). Proof. intros (H & _). exact H. Qed.
+
+Lemma in_upd_at o1 st : forall l o e, In (o, e) l -> exists e', In (o, e') (upd_at o1 st l) /\ e_id e' = e_id e.
+Proof.
+  intros l o e H. unfold upd_at. destruct (o =? o1) eqn:E.
+  - exists (upd st e). split; [|reflexivity]. apply in_map_iff. exists (o, e). cbn [fst snd]. rewrite E. split; [reflexivity | exact H].
+  - exists e. split; [|reflexivity]. apply in_map_iff. exists (o, e). cbn [fst snd]. rewrite E. split; [reflexivity | exact H].
+Qed.
+
+Lemma valid_pair_upd q q' l o1 st o id : nid q' = nid q -> cnt q' = cnt q ->
+  valid_pair q l o id -> valid_pair q' (upd_at o1 st l) o id.
+Proof.
+  intros Hn Hc (H0 & Hv). split; [exact H0|]. rewrite Hn, Hc. destruct Hv as [Hs | (e & Hin & He)]; [left; exact Hs | right].
+  destruct (in_upd_at o1 st l o e Hin) as (e' & Hin' & He'). exists e'. split; [exact Hin' | congruence].
+Qed.
+
+Lemma valid_pair_enq q q' l D nx e o id : MQInv q l -> MQInv q' (skipn D l ++ [(nx, e)]) -> (D <= length l)%nat ->
+  nid q' = nid q + 1 -> valid_pair q l o id -> valid_pair q' (skipn D l ++ [(nx, e)]) o id.
+Proof.
+  intros H H' HD Hn (H0 & Hv). split; [exact H0|].
+  pose proof (inv_cnt _ _ H) as Hc. pose proof (inv_cnt _ _ H') as Hc'. rewrite app_length, skipn_length in Hc'. cbn [length] in Hc'.
+  destruct H as (_ & _ & _ & _ & Hid & _).
+  destruct Hv as [Hs | (e0 & Hin & He)]; [left; lia|].
+  rewrite <- (firstn_skipn D l) in Hin, Hid. apply in_app_or in Hin. destruct Hin as [Hin | Hin].
+  - left. apply ids_from_app in Hid. destruct Hid as [Hid1 _].
+    pose proof (ids_in_range _ _ (o, e0) Hid1 Hin) as Hr. cbn [snd] in Hr. rewrite firstn_length in Hr. lia.
+  - right. exists e0. split; [apply in_or_app; left; exact Hin | exact He].
+Qed.
+
+Lemma valid_pair_reset : forall l1 q q' l o id, nid q' = nid q -> cnt q' = cnt q ->
+  valid_pair q l o id -> valid_pair q' (reset_lay l1 l) o id.
+Proof.
+  induction l1 as [|p r IH]; intros q q' l o id Hn Hc Hv; cbn [reset_lay fold_left].
+  - destruct Hv as (H0 & Hv). split; [exact H0|]. rewrite Hn, Hc. exact Hv.
+  - destruct (e_st (snd p) =? QSENT).
+    + apply (IH q q'); try assumption. apply (valid_pair_upd q q); try reflexivity. exact Hv.
+    + apply (IH q q'); assumption.
+Qed.
+
+Lemma ids_head k p r : ids_from k (p :: r) -> e_id (snd p) = k. Proof. cbn [ids_from]. tauto. Qed.
+
+Lemma valid_pair_confirm q q' l o1 id1 o id : MQInv q l -> MQInv q' (confirm_lay q l o1 id1) -> nid q' = nid q ->
+  valid_pair q l o id -> valid_pair q' (confirm_lay q l o1 id1) o id.
+Proof.
+  intros H H' Hn Hv. pose proof (inv_cnt _ _ H) as Hc. pose proof (inv_cnt _ _ H') as Hc'. revert H' Hc'. unfold confirm_lay.
+  destruct (id1 <? nid q - cnt q).
+  - intros H' Hc'. destruct Hv as (H0 & Hv). split; [exact H0|]. rewrite Hn. replace (cnt q') with (cnt q) by lia. exact Hv.
+  - destruct (o1 =? first q).
+    + intros H' Hc'. pose proof (valid_pair_upd q q l o1 QCONF o id eq_refl eq_refl Hv) as (H0 & Hv2). split; [exact H0|].
+      destruct H as (_ & _ & _ & _ & Hid & _). pose proof (ids_upd_at l _ o1 QCONF Hid) as Hid2.
+      destruct (upd_at o1 QCONF l) as [|p r] eqn:EU.
+      * cbn [tl] in *. destruct Hv2 as [Hs | (e & Hin & _)]; [left; rewrite Hn; cbn [length] in Hc'; lia | destruct Hin].
+      * cbn [tl] in *. assert (Hl : length l = S (length r)). { rewrite <- (upd_at_length o1 QCONF l), EU. reflexivity. }
+        rewrite Hn. destruct Hv2 as [Hs | (e & Hin & He)]; [left; lia|].
+        destruct Hin as [Hp | Hin]; [left | right; exists e; split; assumption].
+        pose proof (ids_head _ _ _ Hid2) as Hh. rewrite Hp in Hh. cbn [snd] in Hh. lia.
+    + intros H' Hc'. rewrite upd_at_length in Hc'. apply (valid_pair_upd q q'); try assumption. lia.
+Qed.
+
+(* ------------------------------------------------------------------ every history *)
+Inductive mop := MEnq (a : list Z) | MNext | MConf (i : nat) | MReset | MReads.
+
+(* state of a run: the ring and the (entry pointer, entry id) pairs handed out so far (what the k-buffers may hold) *)
+Definition mq_step (q : mqs) (issued : list (Z * Z)) (o : mop) : res (mqs * list (Z * Z) * option (Z * ent)) :=
+  match o with
+  | MEnq a => match mq_enqueue q a with Ok q' => Ok (q', issued, None) | Fault w => Fault w end
+  | MNext => match mq_next q with
+             | Ok (Some (off, e), q') => Ok (q', issued ++ [(off, e_id e)], Some (off, e))
+             | Ok (None, q') => Ok (q', issued, None)
+             | Fault w => Fault w
+             end
+  | MConf i => match nth_error issued i with
+               | Some (off, id) => match mq_confirm q off id with Ok q' => Ok (q', issued, None) | Fault w => Fault w end
+               | None => Ok (q, issued, None)
+               end
+  | MReset => match mq_reset_waiting q with Ok q' => Ok (q', issued, None) | Fault w => Fault w end
+  | MReads => match mq_has_unconfirmed q, mq_available q with
+              | Ok _, Ok _ => Ok (q, issued, None)
+              | Fault w, _ => Fault w
+              | _, Fault w => Fault w
+              end
+  end.
+
+Definition Issued (q : mqs) (l : lay_t) (issued : list (Z * Z)) : Prop := Forall (fun p => valid_pair q l (fst p) (snd p)) issued.
+
+Theorem mq_step_ok q l issued o : MQInv q l -> Issued q l issued -> nid q < TWO64 - 1 ->
+  exists q' l' issued' out, mq_step q issued o = Ok (q', issued', out) /\ MQInv q' l' /\ Issued q' l' issued' /\
+    nid q <= nid q' <= nid q + 1 /\ qsize q' = qsize q /\
+    (forall p, out = Some p -> In p l /\ e_st (snd p) = QWAIT).
+Proof.
+  intros H HI Hn. destruct o as [a| |i| |]; cbn [mq_step].
+  - destruct (mq_enqueue_spec q l a H) as [Hbig Hsmall]. destruct (Z_lt_le_dec 250 (lenz a)) as [Hl | Hl].
+    + rewrite (Hbig Hl). exists q, l, issued, None. splits; first [assumption | lia | reflexivity | discriminate | idtac].
+    + destruct (Hsmall Hl) as (q' & D & nx & E & HD & Hi & Hni & Hqs). rewrite E.
+      exists q', (skipn D l ++ [(nx, new_ent q a)]), issued, None. splits; first [assumption | lia | reflexivity | discriminate | idtac].
+      apply Forall_forall. intros p Hp. pose proof (proj1 (Forall_forall _ _) HI p Hp) as Hv. cbn beta in Hv.
+      apply (valid_pair_enq q q' l D nx); assumption.
+  - pose proof (mq_next_spec q l H) as S. destruct (first_waiting l) as [[off e]|] eqn:F.
+    + destruct S as (q' & E & Hi & Hin & Hni & Hcn & Hqs). rewrite E.
+      exists q', (upd_at off QSENT l), (issued ++ [(off, e_id e)]), (Some (off, e)). splits; first [assumption | lia | reflexivity | idtac].
+      * apply Forall_app. split.
+        -- apply Forall_forall. intros p Hp. pose proof (proj1 (Forall_forall _ _) HI p Hp) as Hv. cbn beta in Hv.
+           apply (valid_pair_upd q q'); assumption.
+        -- constructor; [|constructor]. cbn [fst snd]. apply (valid_pair_upd q q'); try assumption.
+           destruct H as (_ & _ & _ & _ & Hid & Hn0 & _). pose proof (ids_in_range _ _ (off, e) Hid Hin) as Hr. cbn [snd] in Hr.
+           split; [lia | right; exists e; split; [exact Hin | reflexivity]].
+      * intros p Hp. inversion Hp; subst. apply (first_waiting_in l off e F).
+    + rewrite S. exists q, l, issued, None. splits; first [assumption | lia | reflexivity | discriminate | idtac].
+  - destruct (nth_error issued i) as [[off id]|] eqn:En.
+    + pose proof (nth_error_In _ _ En) as Hin. pose proof (proj1 (Forall_forall _ _) HI _ Hin) as Hv. cbn [fst snd] in Hv.
+      destruct (mq_confirm_spec q l off id H ltac:(lia) Hv) as (q' & E & Hi & Hni & Hqs). rewrite E.
+      exists q', (confirm_lay q l off id), issued, None. splits; first [assumption | lia | reflexivity | discriminate | idtac].
+      apply Forall_forall. intros p Hp. pose proof (proj1 (Forall_forall _ _) HI p Hp) as Hv2. cbn beta in Hv2.
+      apply (valid_pair_confirm q q'); assumption.
+    + exists q, l, issued, None. splits; first [assumption | lia | reflexivity | discriminate | idtac].
+  - destruct (mq_reset_waiting_spec q l H) as (q' & E & Hi & Hni & Hcn & Hqs). rewrite E.
+    exists q', (reset_lay l l), issued, None. splits; first [assumption | lia | reflexivity | discriminate | idtac].
+    apply Forall_forall. intros p Hp. pose proof (proj1 (Forall_forall _ _) HI p Hp) as Hv. cbn beta in Hv.
+    apply (valid_pair_reset l q q'); assumption.
+  - destruct (mq_reads_ok q l H) as [E1 E2]. rewrite E1, E2.
+    exists q, l, issued, None. splits; first [assumption | lia | reflexivity | discriminate | idtac].
+Qed.
+
+Fixpoint mq_run (q : mqs) (issued : list (Z * Z)) (ops : list mop) : res (mqs * list (option (Z * ent))) :=
+  match ops with
+  | [] => Ok (q, [])
+  | o :: r => match mq_step q issued o with
+              | Fault w => Fault w
+              | Ok (q', issued', out) => match mq_run q' issued' r with
+                                         | Fault w => Fault w
+                                         | Ok (q'', outs) => Ok (q'', out :: outs)
+                                         end
+              end
+  end.
+
+(* every history of enqueue / getNextWaiting / confirm (of any pair handed out before) / resetWaiting / reads on a ring of
+   any size: no header is read where no live entry starts, the invariant holds at the end *)
+Theorem mq_no_fault : forall ops q l issued, MQInv q l -> Issued q l issued ->
+  nid q + Z.of_nat (length ops) < TWO64 - 1 ->
+  exists q' outs l', mq_run q issued ops = Ok (q', outs) /\ MQInv q' l'.
+Proof.
+  induction ops as [|o r IH]; intros q l issued H HI Hn; cbn [mq_run].
+  - exists q, [], l. split; [reflexivity | exact H].
+  - cbn [length] in Hn. destruct (mq_step_ok q l issued o H HI ltac:(lia)) as (q1 & l1 & is1 & out & E & H1 & HI1 & Hni & _ & _). rewrite E.
+    destruct (IH q1 l1 is1 H1 HI1 ltac:(lia)) as (q2 & outs & l2 & E2 & H2). rewrite E2. eauto.
+Qed.
+
+Lemma MQInv_new n : 1 <= n -> MQInv (mq_new n) [].
+Proof.
+  intros H. unfold MQInv, mq_new. cbn [qsize cnt first last lib nid cells length]. unfold HDR.
+  splits; first [lia | (left; reflexivity) | constructor].
+Qed.
+
+(* live entries lie inside the arena *)
+Theorem mq_entries_in_arena q l p : MQInv q l -> In p l -> 0 <= fst p /\ fst p + esz (snd p) <= qsize q.
+Proof.
+  intros (Hc & Hq & Hs & Hst & Hid & Hn & Hg) Hin. destruct Hg as [-> | [HL | HW]]; [destruct Hin| |].
+  - destruct HL as (H0 & Hcg & _ & _ & He). destruct (contig_bounds l (first q) p Hs Hcg Hin). lia.
+  - destruct HW as (A & B & -> & HA & HB & HcA & _ & HeA & HcB & _ & HeB).
+    apply sane_app in Hs. destruct Hs as [HsA HsB].
+    pose proof (endof_ge A (first q) HsA). pose proof (endof_ge B 0 HsB).
+    apply in_app_or in Hin. destruct Hin as [Hin | Hin].
+    + destruct (contig_bounds A (first q) p HsA HcA Hin). lia.
+    + destruct (contig_bounds B 0 p HsB HcB Hin). lia.
 Qed.
